@@ -63,6 +63,17 @@ def make_projection(desc):
             return ax * e + bx, ay * n + by
 
         return proj
+    if desc["kind"] == "rot":
+        # rotation + scaling: invertible, mixes easting and northing (a projected grid is not a meshgrid any more)
+        ca, sa, k = float(np.cos(desc["angle"])), float(np.sin(desc["angle"])), desc["k"]
+
+        def proj(e, n, inverse=False):
+            e, n = np.asarray(e, dtype="float64"), np.asarray(n, dtype="float64")
+            if inverse:
+                return (ca * e + sa * n) / k, (-sa * e + ca * n) / k
+            return k * (ca * e - sa * n), k * (sa * e + ca * n)
+
+        return proj
     c = desc["c"] * max(desc.get("span", 1.0), 1.0)
 
     def proj(e, n, inverse=False):
@@ -79,7 +90,8 @@ proj_desc = st.one_of(
     st.none(), st.none(),
     st.builds(lambda ax, bx, ay, by: dict(kind="affine", ax=ax, bx=bx, ay=ay, by=by), st.sampled_from([2.0, 0.5, -1.0, 111.0, -3.0]),
               st.sampled_from([0.0, 10.0, -500.0]), st.sampled_from([2.0, 0.25, -1.0, 111.0]), st.sampled_from([0.0, -7.0, 1000.0])),
-    st.builds(lambda c: dict(kind="sinh", c=c), st.sampled_from([0.5, 1.0, 3.0])))
+    st.builds(lambda c: dict(kind="sinh", c=c), st.sampled_from([0.5, 1.0, 3.0])),
+    st.builds(lambda a, k: dict(kind="rot", angle=a, k=k), st.sampled_from([0.4363323129985824, 1.0, -2.0]), st.sampled_from([1.0, 0.5, 3.0])))
 
 
 @st.composite
@@ -216,8 +228,12 @@ def check_grid(case, ctx):
         ctx.check(var.attrs.get("metadata") == meta, "variable %s lacks the gridder's description as metadata", name)
         if case["gridder"] in ("analytic", "analytic_region", "named"):
             exp = field(c, pe, pn)
+        elif case["gridder"] == "checker":
+            # closed form (documented: amplitude * sin(2 pi e / w_east) * cos(2 pi n / w_north), wavelengths default to half the region)
+            rw, re_, rs, rn = case["region"]
+            exp = 10.0 * np.sin(2 * np.pi / ((re_ - rw) / 2) * pe) * np.cos(2 * np.pi / ((rn - rs) / 2) * pn)
         else:
-            exp = np.asarray(gridder.predict((pe, pn)))
+            exp = np.asarray(gridder.predict((np.ravel(pe), np.ravel(pn)))).reshape(np.shape(pe))
         got = var.values
         scale = np.maximum(np.abs(exp), 1.0)
         bad = ~(np.abs(got - exp) <= 1e-12 * scale)
